@@ -675,6 +675,8 @@ def splice(lines, contracts, injections, counts, report, externals=(), canary=Fa
             newsig2, k = re.subn(a, b, newsig)
             if k == 0:
                 lost.append('fn %s: sig rule %r did not match' % (key, a))
+            else:
+                counts['Rsig:signature-rule'] = counts.get('Rsig:signature-rule', 0) + 1
             newsig = newsig2
         if newsig != sig:
             if newsig.count('\n') != sig.count('\n'):
